@@ -61,7 +61,7 @@ def module_name(prefix, tag):
 def drop_cached(prefix="vp"):
     import sys
 
-    for k in [k for k in sys.modules if k.startswith("vprec_") or k.startswith("vpfault_")]:
+    for k in [k for k in sys.modules if k.startswith("vprec_") or k.startswith("vpfault_") or k.startswith("vptext_")]:
         del sys.modules[k]
 
 
@@ -139,3 +139,31 @@ class @CLASS@(RulePlugin):
 
 def faulty_source(fix=False, cls="Faulty"):
     return FAULTY.replace("@FIX@", "True" if fix else "False").replace("@CLASS@", cls)
+
+
+TEXTFAULT = '''
+"""Rule plugin that raises when a line of the scanned file contains the text VP_RAISE_HERE (C18)."""
+from pymarkdown.plugin_manager.plugin_details import PluginDetailsV2
+from pymarkdown.plugin_manager.rule_plugin import RulePlugin
+
+
+class @CLASS@(RulePlugin):
+    def get_details(self):
+        return PluginDetailsV2(
+            plugin_name="vp-textfault",
+            plugin_id="AAC003",
+            plugin_enabled_by_default=True,
+            plugin_description="vp text-triggered fault",
+            plugin_version="0.0.1",
+            plugin_supports_fix=True,
+            plugin_fix_level=0,
+        )
+
+    def next_line(self, context, line):
+        if "VP_RAISE_HERE" in line:
+            raise ValueError("vp text-triggered fault")
+'''
+
+
+def textfault_source(cls="Textfault"):
+    return TEXTFAULT.replace("@CLASS@", cls)
